@@ -100,10 +100,21 @@ package slayers
 
 //@ # frame assumption for path decoders reached through the path.Path interface: they write the path object only,
 //@ # which is separate from the SCION layer struct
+//@ import scion "github.com/scionproto/scion/pkg/slayers/path/scion"
+//@ macro rawPathOK(r, d) = (scion.baseOK(r.PathMeta.SegLen[0], r.PathMeta.SegLen[1], r.PathMeta.SegLen[2], r.NumINF, r.NumHops) && r.PathMeta.CurrHF <= 63 && r.PathMeta.CurrINF <= 3 && len(r.Raw) == 4+r.NumINF*8+r.NumHops*12 && len(r.Raw) <= len(d) && r.Raw == d[:len(r.Raw)])
+//@ import onehop "github.com/scionproto/scion/pkg/slayers/path/onehop"
+//@ import epic "github.com/scionproto/scion/pkg/slayers/path/epic"
+//@ macro ohpPathOK(o, d) = (len(d) >= 32 && o.Info.ConsDir == (d[0]&1 == 1) && o.Info.Peer == (d[0]&2 == 2) && o.Info.SegID == uint16(d[2])<<8|uint16(d[3]) && o.Info.Timestamp == uint32(d[4])<<24|uint32(d[5])<<16|uint32(d[6])<<8|uint32(d[7]) && o.FirstHop.EgressRouterAlert == (d[8]&1 == 1) && o.FirstHop.IngressRouterAlert == (d[8]&2 == 2) && o.FirstHop.ExpTime == d[9] && o.FirstHop.ConsIngress == uint16(d[10])<<8|uint16(d[11]) && o.FirstHop.ConsEgress == uint16(d[12])<<8|uint16(d[13]) && o.FirstHop.Mac[0] == d[14] && o.FirstHop.Mac[1] == d[15] && o.FirstHop.Mac[2] == d[16] && o.FirstHop.Mac[3] == d[17] && o.FirstHop.Mac[4] == d[18] && o.FirstHop.Mac[5] == d[19] && o.SecondHop.EgressRouterAlert == (d[20]&1 == 1) && o.SecondHop.IngressRouterAlert == (d[20]&2 == 2) && o.SecondHop.ExpTime == d[21] && o.SecondHop.ConsIngress == uint16(d[22])<<8|uint16(d[23]) && o.SecondHop.ConsEgress == uint16(d[24])<<8|uint16(d[25]) && o.SecondHop.Mac[0] == d[26] && o.SecondHop.Mac[1] == d[27] && o.SecondHop.Mac[2] == d[28] && o.SecondHop.Mac[3] == d[29] && o.SecondHop.Mac[4] == d[30] && o.SecondHop.Mac[5] == d[31])
+//@ macro epicPathOK(e, d) = (len(d) >= 16 && e.ScionPath != nil && len(e.PHVF) == 4 && len(e.LHVF) == 4 && scion.baseOK(e.ScionPath.PathMeta.SegLen[0], e.ScionPath.PathMeta.SegLen[1], e.ScionPath.PathMeta.SegLen[2], e.ScionPath.NumINF, e.ScionPath.NumHops) && e.ScionPath.PathMeta.CurrHF <= 63 && e.ScionPath.PathMeta.CurrINF <= 3 && len(e.ScionPath.Raw) == 4+e.ScionPath.NumINF*8+e.ScionPath.NumHops*12 && sameArray(e.ScionPath.Raw, d) && fresh(e.PHVF) && fresh(e.LHVF))
 //@ iface path.Path.DecodeFromBytes
 //@   modifies nothing
+//@   ensures result == nil && typeis(self, *onehop.Path) ==> asptr(self, *onehop.Path) != nil && ohpPathOK(asptr(self, *onehop.Path), arg0)
+//@   ensures result == nil && typeis(self, *epic.Path) ==> asptr(self, *epic.Path) != nil && epicPathOK(asptr(self, *epic.Path), arg0)
+//@   # for the SCION path type this is the verified postcondition of (*scion.Raw).DecodeFromBytes
+//@   ensures result == nil && typeis(self, *scion.Raw) ==> asptr(self, *scion.Raw) != nil && rawPathOK(asptr(self, *scion.Raw), arg0)
 //@ func (*SCION).getPath
 //@   props C08
+//@   requires s.pathPool != nil ==> len(s.pathPool) >= 4 && s.pathPoolRaw != nil && forall i int :: 0 <= i && i < len(s.pathPool) ==> s.pathPool[i] != nil
 //@   modifies nothing
 //@   ensures result1 == nil ==> result0 != nil
 
@@ -115,6 +126,8 @@ package slayers
 //@   let st = AddrType(data[9]&0xf)
 //@   let hb = int(data[5])*4
 //@   let al = 16+alen(dt)+alen(st)
+//@   # frame: the layer itself (the path object it points to is written by the path decoder, see the interface contract)
+//@   modifies *s
 //@   ensures result == nil ==> len(data) >= 12 && hb >= 12+al && len(data) >= hb
 //@   ensures result == nil ==> s.Version == data[0]>>4 && s.TrafficClass == data[0]<<4|data[1]>>4 && s.FlowID == uint32(data[1]&0xf)<<16|uint32(data[2])<<8|uint32(data[3])
 //@   ensures result == nil ==> s.NextHdr == L4ProtocolType(data[4]) && s.HdrLen == data[5] && s.PayloadLen == uint16(data[6])<<8|uint16(data[7]) && s.PathType == path.Type(data[8]) && s.DstAddrType == dt && s.SrcAddrType == st
@@ -122,8 +135,33 @@ package slayers
 //@   ensures result == nil ==> s.RawDstAddr == data[28:28+alen(dt)] && s.RawSrcAddr == data[28+alen(dt):28+alen(dt)+alen(st)]
 //@   ensures result == nil ==> s.BaseLayer.Contents == data[:hb] && s.BaseLayer.Payload == data[hb:]
 //@   ensures result == nil ==> s.Path != nil
+//@   # a SCION-type path satisfies the raw path invariant and aliases the packet bytes after the address header
+//@   ensures result == nil && typeis(s.Path, *scion.Raw) ==> asptr(s.Path, *scion.Raw) != nil && rawPathOK(asptr(s.Path, *scion.Raw), data[12+al:hb])
+//@   ensures result == nil && typeis(s.Path, *onehop.Path) ==> asptr(s.Path, *onehop.Path) != nil && ohpPathOK(asptr(s.Path, *onehop.Path), data[12+al:hb])
+//@   ensures result == nil && typeis(s.Path, *epic.Path) ==> asptr(s.Path, *epic.Path) != nil && epicPathOK(asptr(s.Path, *epic.Path), data[12+al:hb])
 
 //@ # frame assumption: the decode feedback object is not part of the layer state
 //@ import gopacket "github.com/gopacket/gopacket"
 //@ iface gopacket.DecodeFeedback.SetTruncated
 //@   modifies nothing
+
+//@ # ---- extension headers: base decoding (C18) and skippers (C08)
+//@ func decodeExtnBase
+//@   props C18 C08
+//@   requires df != nil
+//@   modifies nothing
+//@   ensures (result1 == nil) == (len(data) >= 2 && len(data) >= (int(data[1])+1)*4)
+//@   ensures result1 == nil ==> result0.NextHdr == L4ProtocolType(data[0]) && result0.ExtLen == data[1] && result0.ActualLen == (int(data[1])+1)*4
+//@   ensures result1 == nil ==> result0.BaseLayer.Contents == data[:(int(data[1])+1)*4] && result0.BaseLayer.Payload == data[(int(data[1])+1)*4:]
+
+//@ func (*HopByHopExtnSkipper).DecodeFromBytes
+//@   props C08
+//@   requires df != nil
+//@   modifies *s
+//@ func (*EndToEndExtnSkipper).DecodeFromBytes
+//@   props C08
+//@   requires df != nil
+//@   modifies *s
+//@ func (*UDP).DecodeFromBytes
+//@   props C08 C18
+//@   requires df != nil
